@@ -26,6 +26,10 @@ func TestMain(m *testing.M) {
 		os.Stderr = f
 	}
 	uuid.SetRand(simrt.UUIDReader{})
+	if err := SchemaFilesCurrent(); err != nil {
+		os.Stdout.WriteString("harness: " + err.Error() + "\n")
+		os.Exit(2)
+	}
 	kf := os.Getenv("VERIF_KNOWN")
 	if kf == "" {
 		kf = "/verif/known_findings.json"
